@@ -124,7 +124,10 @@ class CompoundQuery(qcore.Query):
         for s in self.subqueries:
             s = s.normalize()
             if isinstance(s, self.__class__):
-                subqueries += [ss.with_boost(ss.boost * s.boost) for ss in s]
+                # Not every query type has a boost attribute (e.g. span
+                # queries, ConstantScoreQuery)
+                subqueries += [ss.with_boost(getattr(ss, "boost", 1.0)
+                                             * s.boost) for ss in s]
             else:
                 subqueries.append(s)
 
